@@ -6,15 +6,13 @@
    Prop = "XS":   events are [sv, doc, lib] - arbitrary (mutated) documents with the verdict of the
                   jsonschema library on the pinned official schema file; the TLA+ transcription must
                   agree (a disagreement is a machinery failure, not a violation)               *)
-EXTENDS JsonSchema, Json, IOUtils, FiniteSets, TraceData
+EXTENDS JsonRules, Json, IOUtils, TraceData
 CONSTANT Prop
 T == TraceData
 VARIABLES i, ph
 Init == i \in 1..Len(T) /\ ph = 0
 Next == ph = 0 /\ ph' = 1 /\ i' = i
 Spec == Init /\ [][Next]_<<i, ph>>
-Variants == <<"uf","um","sf","sm">>      \* u/s = unsorted/sorted, f/m = full/minimal
-
 \* ---- C10 -------------------------------------------------------------------------------------
 C10(e) == IF e.out.cls # "ok" THEN "ok"
           ELSE LET sv == SchemaVersion(e.ver, e.out.minor)
@@ -24,80 +22,7 @@ C10(e) == IF e.out.cls # "ok" THEN "ok"
                               THEN "properties/vectorString/pattern:echo-of-accepted-input-not-in-official-form" ELSE f : f \in fails}
                IN IF fails = {} THEN "ok" ELSE "schema " \o sv \o " " \o ToString(fails2)
 
-\* ---- C11 -------------------------------------------------------------------------------------
-KeyOfMetric(ver, m) == IF ver = "2" THEN {JsonKey2[m]} ELSE IF ver = "3" THEN {JsonKey3[m]} ELSE {JsonKey4[m], AltKey4[m]}
-NameTab(ver) == IF ver = "2" THEN JsonName2 ELSE IF ver = "3" THEN JsonName3 ELSE JsonName4
-Accepted(ver, m, v) == {NameTab(ver)[m][v]} \cup (IF ver = "4" /\ m \in DOMAIN AltName4 /\ v \in DOMAIN AltName4[m] THEN {AltName4[m][v]} ELSE {})
-\* the value a metric field must name: the stated value; for a Not Defined modified metric its base
-\* metric's value; Not Defined otherwise
-EffJson(ver, g, m) == IF m \in DOMAIN g /\ g[m] # NDOf(ver) THEN g[m]
-                      ELSE IF ver = "3" /\ m \in DOMAIN BaseOf3 THEN g[BaseOf3[m]]
-                      ELSE IF ver = "4" /\ m \in DOMAIN BaseOf4 THEN g[BaseOf4[m]]
-                      ELSE NDOf(ver)
-ScoreKeys == <<"baseScore","temporalScore","environmentalScore">>
-SevKeys == <<"baseSeverity","temporalSeverity","environmentalSeverity">>
-GroupMetrics(ver) == IF ver = "2" THEN <<Temporal2, Environmental2>> ELSE IF ver = "3" THEN <<Temporal3, Environmental3>> ELSE <<>>
-AllMetricKeys(ver) == UNION {KeyOfMetric(ver, m) : m \in MetricsOf(ver)}
-KnownKeys(ver) == AllMetricKeys(ver) \cup {"version","vectorString"} \cup SeqToSet(ScoreKeys) \cup SeqToSet(SevKeys)
-                  \cup (IF ver = "4" THEN {"threatScore","threatSeverity"} ELSE {})
-\* lexicographic order of ASCII keys (Python compares code points: digits < upper case < lower case)
-Alpha == "0123456789ABCDEFGHIJKLMNOPQRSTUVWXYZabcdefghijklmnopqrstuvwxyz"
-Code(c) == IF IndexFrom(Alpha, c, 1) = 0 THEN 0 ELSE IndexFrom(Alpha, c, 1)
-\* (find the first differing position by equality, then compare that one character pair)
-RECURSIVE FirstDiff(_,_,_)
-FirstDiff(a, b, k) == IF k > Len(a) \/ k > Len(b) THEN k ELSE IF Ch(a,k) # Ch(b,k) THEN k ELSE FirstDiff(a, b, k+1)
-StrLess(a, b) == LET k == FirstDiff(a, b, 1) IN
-                 IF k > Len(a) THEN k <= Len(b) ELSE IF k > Len(b) THEN FALSE ELSE Code(Ch(a,k)) < Code(Ch(b,k))
-AsSet(doc) == {doc[k] : k \in 1..Len(doc)}
-\* key -> <<key, type, text>> of a document, evaluated once (lookups by Get are linear in the document)
-DocMap(doc) == TLCEval([k \in Keys(doc) |-> doc[CHOOSE x \in 1..Len(doc) : doc[x][1] = k]])
-Faithful(e, doc, g) ==
-   LET ver == e.ver
-       mets == MetricsOf(ver)
-       dm == DocMap(doc)
-       ks == DOMAIN dm
-       dup == Cardinality(ks) # Len(doc)
-       badMetric == {m \in mets : \E key \in KeyOfMetric(ver, m) : key \in ks /\
-                        ~(dm[key][2] = "str" /\ dm[key][3] \in Accepted(ver, m, EffJson(ver, g, m)))}
-       versionOk == dm["version"][2] = "str" /\
-                    dm["version"][3] \in (IF ver = "2" THEN {"2.0"} ELSE IF ver = "4" THEN {"4","4.0"}
-                                          ELSE {IF e.out.minor = 0 THEN "3.0" ELSE "3.1"})
-       scoreBad == \E k \in 1..Len(e.out.scores) : ScoreKeys[k] \in ks /\ e.out.scores[k] >= 0 /\
-                      ~(IsNumber(dm[ScoreKeys[k]]) /\ Tenths(dm[ScoreKeys[k]][3]) = e.out.scores[k])
-       sevBad == \E k \in 1..Len(e.out.sev) : SevKeys[k] \in ks /\ e.out.scores[k] >= 0 /\
-                      ~(dm[SevKeys[k]][2] = "str" /\ Upper(dm[SevKeys[k]][3]) = Upper(Band(ver, e.out.scores[k])))
-       known == KnownKeys(ver)
-   IN IF dup THEN "duplicate-key"
-      ELSE IF "version" \notin ks THEN "version"
-      ELSE IF ~versionOk THEN "version"
-      ELSE IF "vectorString" \notin ks THEN "vectorString"
-      ELSE IF dm["vectorString"][2] # "str" \/ dm["vectorString"][3] # e.s THEN "vectorString"
-      ELSE IF "baseScore" \notin ks THEN "baseScore-missing"
-      ELSE IF scoreBad THEN "score-field"
-      ELSE IF sevBad THEN "severity-field"
-      ELSE IF badMetric # {} THEN "metric-field-" \o (CHOOSE m \in badMetric : TRUE)
-      ELSE IF \E k \in ks : k \notin known THEN "unknown-key-" \o (CHOOSE k \in ks : k \notin known)
-      ELSE IF \E m \in SeqToSet(MandOf(ver)) : \A key \in KeyOfMetric(ver, m) : key \notin ks THEN "base-field-missing"
-      ELSE "ok"
-\* sorted variant: same fields, ascending keys
-SortedOk(u, s) == IF AsSet(u) # AsSet(s) \/ Len(u) # Len(s) THEN "sort-changes-content"
-                  ELSE IF \E k \in 1..(Len(s)-1) : ~StrLess(s[k][1], s[k+1][1]) THEN "sort-order"
-                  ELSE "ok"
-\* minimal variant: the full document minus whole temporal / environmental groups; never a group
-\* with a defined metric
-RECURSIVE Restrict(_,_,_)
-Restrict(doc, keep, k) == IF k > Len(doc) THEN <<>> ELSE (IF doc[k][1] \in keep THEN <<doc[k]>> ELSE <<>>) \o Restrict(doc, keep, k+1)
-MinimalOk(ver, g, full, min) ==
-   LET removed == Keys(full) \ Keys(min)
-       grp == GroupMetrics(ver)
-       gkeys(n) == UNION {KeyOfMetric(ver, grp[n][k]) : k \in 1..Len(grp[n])} \cup {ScoreKeys[n+1], SevKeys[n+1]}
-       gdefined(n) == \E k \in 1..Len(grp[n]) : grp[n][k] \in DOMAIN g /\ g[grp[n][k]] # NDOf(ver)
-       whole == \A n \in 1..Len(grp) : (removed \cap gkeys(n) = {}) \/ ((Keys(full) \cap gkeys(n)) \subseteq removed)
-   IN IF min # Restrict(full, Keys(min), 1) THEN "minimal-changes-or-reorders-fields"
-      ELSE IF \E key \in removed : \A n \in 1..Len(grp) : key \notin gkeys(n) THEN "minimal-removes-non-group-field"
-      ELSE IF ~whole THEN "minimal-removes-part-of-a-group"
-      ELSE IF \E n \in 1..Len(grp) : gdefined(n) /\ removed \cap gkeys(n) # {} THEN "minimal-removes-group-with-defined-metric-" \o (IF \E n \in 1..Len(grp) : n = 1 /\ gdefined(n) /\ removed \cap gkeys(n) # {} THEN "temporal" ELSE "environmental")
-      ELSE "ok"
+\* ---- C11 (the rules are in JsonRules.tla) -----------------------------------------------------
 C11(e) ==
    IF e.out.cls # "ok" THEN "ok"
    ELSE LET p == Parse(e.ver, e.s) IN
